@@ -102,7 +102,7 @@ pub fn gen_truth(r: &mut Rng) -> Truth {
     let files: Vec<(String, i64)> = if single {
         vec![("NAME".to_string(), len(r))]
     } else {
-        (0..r.range(1, 5)).map(|i| (match r.below(6) { 0 => format!("d{}/a\\b{}.bin", i % 2, i), 1 => format!("w\\x/f{}", i), 2 => format!("d{}/f{};%41 \t.bin", i % 2, i), _ => format!("d{}/f{} ü.bin", i % 2, i) }, len(r))).collect()
+        (0..r.range(1, 5)).map(|i| (match r.below(7) { 6 if i > 0 => String::new(), 0 => format!("d{}/a\\b{}.bin", i % 2, i), 1 => format!("w\\x/f{}", i), 2 => format!("d{}/f{};%41 \t.bin", i % 2, i), _ => format!("d{}/f{} ü.bin", i % 2, i) }, len(r))).collect()
     };
     let n = r.range(0, 6) as usize;
     Truth {
@@ -155,7 +155,7 @@ fn compare(m: &Metainfo, t: &Truth) -> Result<(), String> {
     if ranges.len() != t.files.len() {
         return Err(format!("file list has {} entries, document lists {}", ranges.len(), t.files.len()));
     }
-    let dir = if t.files.len() > 1 { PathBuf::from(&t.name) } else { PathBuf::new() };
+    let dir = if !t.single { PathBuf::from(&t.name) } else { PathBuf::new() };
     let mut off: u128 = 0;
     for (k, (p, l)) in t.files.iter().enumerate() {
         let want = if t.single { PathBuf::from(&t.name) } else { dir.join(p) };
